@@ -305,7 +305,13 @@ def r4_orientation(ctx):
     sn = a[0].arg
     rets = [s_ for s_ in statements(g.node) if isinstance(s_, ast.Return)]
     comps = {U(st.targets[0]): st.value for st in statements(g.node) if isinstance(st, ast.Assign) and isinstance(st.value, ast.DictComp)}
-    order = [U(e) for e in rets[0].value.elts] if rets and isinstance(rets[0].value, ast.Tuple) else []
+    order = []
+    for i_, e in enumerate(rets[0].value.elts if rets and isinstance(rets[0].value, ast.Tuple) else []):
+        if isinstance(e, ast.DictComp):  # returned directly
+            comps[f"<ret{i_}>"] = e
+            order.append(f"<ret{i_}>")
+        else:
+            order.append(U(e))
     if len(order) != 2 or any(o not in comps for o in order):
         ctx.unknown("C15.R4", g, g.node, "compute_sorted_children_and_ancestors no longer returns two dictionary comprehensions")
     else:
